@@ -1,6 +1,6 @@
 HOOK_COMMITS = []
 _PENDING = "check not built yet in this round (planned, see DESIGN.md section 9); not a statement that the technique cannot apply"
-NOT_APPLICABLE = {p: _PENDING for p in ["C02","C03","C04","C05","C06","C07","C08","C09","C10","C11","C12","C16","C18","C19"]}
+NOT_APPLICABLE = {p: _PENDING for p in ["C03","C04","C05","C06","C07","C08","C09","C10","C11","C12","C16","C18","C19"]}
 TEXT = {
  "C17": {
   "text": "Lean mirror of integer.h / dyadic_rational.h / rational.h; theorems for every modulus m>=2 and every operand state that each "
@@ -64,5 +64,16 @@ TEXT = {
   "design_ref": "5.1",
   "note": "reference (not mirror) model: the recursive coefficient_t layout is not modelled, only its observable traversal; uniqueness of the canonical form (den injective on canonical lists), derivative and rational evaluation are executable and tied by correspondence but not yet proved",
   "technique": "Lean 4 proved reference model (MvPolynomial denotation) + differential correspondence harness",
+ },
+ "C02": {
+  "text": "Verified validators: every (P, Q, R), exact quotient and divisibility answer returned by the C code is decided by executable "
+          "checkers over the C01 reference model, proved sound in Lean for Z and every Z_m: accepted identity => P*A = Q*B + R in "
+          "MvPolynomial, accepted quotient => Q*B = A, accepted multiplier => P = lc(B)^k, degree read from the term list bounds the "
+          "true degree. Dense reduction must hit k = deg A - deg B + 1 exactly, P must be free of the main variable, R must have "
+          "smaller degree; pseudo-remainders are accepted for some k up to that bound. Divisibility is compared with a division "
+          "algorithm whose positive answers carry a multiply-back certificate.",
+  "design_ref": "5.2",
+  "note": "validator style (the reduce loop is not mirrored); completeness of the divisibility oracle (answer 'no quotient') rests on the unproved termination/completeness of single-divisor division; composite moduli are excluded from divisibility (no cancellation law)",
+  "technique": "Lean 4 proved checker soundness (MvPolynomial) + per-output validation of the C results",
  },
 }
